@@ -90,6 +90,23 @@ def regen_fs_steps(status):
     _one('fs_steps', 'TallyVerif/Gen/FsSteps.lean', 'TallyVerif.Gen.FsSteps', produce, status)
 
 
+def regen_report_types(status):
+    from .translate import report_types
+
+    def produce():
+        src = common.read(os.path.join(common.SRC, 'report.py'))
+        text, meta = report_types.translate(src)
+        meta['input_sha'] = common.sha(text)
+        return text, meta
+
+    _one('report_types', 'TallyVerif/Gen/ReportTypes.lean', 'TallyVerif.Gen.ReportTypes', produce, status)
+
+
+def regen_c12(status):
+    regen_classification(status)
+    regen_report_types(status)
+
+
 def regen_all():
     status = {}
     regen_classification(status)
@@ -97,4 +114,5 @@ def regen_all():
     regen_expr_tables(status)
     regen_fmt_tables(status)
     regen_fs_steps(status)
+    regen_report_types(status)
     return status
